@@ -867,6 +867,39 @@ def run_under_configs(res, ctx, d, scratch, rng, C, owner_ids, n_progs, n_cfgs, 
     res.extra["settings_variants"] = len(config_variants(rng, 0, sections))
 
 
+def hint_calls(repo, rng, limit):
+    """Calls synthesised from the literals of the lines by which /repo differs from the recorded commit (harness/diffhints.py; nothing on the recorded tree): every
+    identifier-like literal is imported, called as a function / a method / by its dotted spelling, and used as a keyword name, with one value of every expression kind
+    in each slot.  A change that keys new behaviour on a method name, an import and an argument shape ("generate_key" + "OpenSSL" + a dict display: seeded change
+    C06-m16) spells those names out; no example file contains them."""
+    import diffhints, re as _re
+    idents = [s_ for s_ in diffhints.hints(repo)["strings"] if _re.fullmatch(r"[A-Za-z_][A-Za-z0-9_]*(\.[A-Za-z_][A-Za-z0-9_]*)*", s_) and not __import__("keyword").iskeyword(s_.split(".")[0])][:16]
+    if not idents:
+        return []
+    pre = "".join(f"import {m}\n" for m in idents)
+    simple = [i for i in idents if "." not in i][:8]
+    vals = [k for k in SWEEP_KINDS if not k.startswith("*")]
+    out = []
+    for name in idents:
+        last = name.split(".")[-1]
+        for callee in dict.fromkeys([last, "obj_." + last, name, "obj_.attr_." + last]):
+            for v in vals:
+                out.append(f"{pre}r_ = {callee}({v})\n")
+                out.append(f"{pre}r_ = {callee}({v}, {rng.choice(vals)})\n")
+                out.append(f"{pre}r_ = {callee}({rng.choice(vals)}, {v})\n")
+                for k in simple:
+                    out.append(f"{pre}r_ = {callee}({k}={v})\n")
+    rng.shuffle(out)
+    ok = []
+    for t in out[:limit * 2]:
+        try:
+            ast.parse(t)
+            ok.append((t, "diffhints", ["hint_calls"]))
+        except SyntaxError:
+            pass
+    return ok[:limit]
+
+
 def family(res, ctx, C, owner_ids, n_quick, n_thorough, want=None, crash_oracle=False, sweep=False, sections=None, cfg_want=None):
     """What a per-family harness calls at the end of its run (skipped on --replay): the transformed-example corpus through model and
     implementation, compared on the family's own ids."""
@@ -892,6 +925,9 @@ def family(res, ctx, C, owner_ids, n_quick, n_thorough, want=None, crash_oracle=
                         keep.append(p)
                 progs = keep
             run(res, ctx, d, scratch, rng, progs, C, "argsweep", owner_ids=owner_ids, crash_oracle=crash_oracle, chunk=3000)
+            hp = hint_calls(C.REPO, rng, 6000 if thorough else 2500)
+            if hp:
+                run(res, ctx, d, scratch, rng, hp, C, "hintcalls", owner_ids=owner_ids, crash_oracle=crash_oracle, chunk=3000)
     finally:
         scratch.close()
         if d is not None:
